@@ -433,12 +433,12 @@ func ruleC11Rest(c *Ctx) {
 		lr := fCtl + "ListReplicas($0.c)"
 		c.Guard(rule, fn, sites, "delete snapshot", lockOrUnlock,
 			needWLock("controller write lock taken"),
-			atom("request body parsed", isNilAtom("(*github.com/rancher/go-rancher/api.ApiContext).Read(github.com/rancher/go-rancher/api.GetApiContext($2),&var(input))")),
+			atom("request body parsed", isNilAtom("(*github.com/rancher/go-rancher/api.ApiContext).Read(github.com/rancher/go-rancher/api.GetApiContext($2),&var(controller/rest.SnapshotInput))")),
 			atom("all RF replicas are RW", eqAtom("$0.c.ReplicationFactor", `count{+"RW" -`+lr+`[*].Mode ==0}`)),
 			atom("checkpoint set", neAtom(`""`, "$0.c.Checkpoint")),
-			atom("snapshot is not the checkpoint", "!strings.Contains($0.c.Checkpoint,var(input).Name)"))
+			atom("snapshot is not the checkpoint", "!strings.Contains($0.c.Checkpoint,var(controller/rest.SnapshotInput).Name)"))
 		for _, s := range sites {
-			if callRender(R, s) == fCtl+"DeleteSnapshot($0.c,var(input).Name,"+lr+")" {
+			if callRender(R, s) == fCtl+"DeleteSnapshot($0.c,var(controller/rest.SnapshotInput).Name,"+lr+")" {
 				c.OK(rule, FnName(fn)+" | deletes the requested name on the listed replicas", c.P.InstrPos(s), "", false)
 			} else {
 				c.Bad(rule, FnName(fn)+" | deletes the requested name on the listed replicas", c.P.InstrPos(s), "called as "+callRender(R, s), nil)
